@@ -742,6 +742,18 @@ pub fn gen_str(s: &mut Src) -> String {
     (0..n).map(|_| *s.pick_ref(&['a', 'b', 'c'])).collect()
 }
 
+/// a string VALUE held by the store: now and then it spells the name of a stored object, field or flat key. Such a
+/// value is data like any other: a condition or assignment that reads it through a field reference gets the text,
+/// not the fact it happens to name. (String LITERALS in rules stay over {a,b,c}: for a literal that names a fact
+/// the engine documents the opposite reading, see DESIGN 4.1.)
+pub fn gen_store_str(s: &mut Src) -> String {
+    if s.chance(1, 8) {
+        s.pick_ref(&["A", "B", "A.x", "B.s", "C.n", "F.x", "A.p.x", "B.t", "A.s"]).to_string()
+    } else {
+        gen_str(s)
+    }
+}
+
 pub fn gen_scalar(s: &mut Src, cfg: &GenCfg) -> V {
     let mut kinds: Vec<u8> = vec![0, 0, 0, 3]; // int ×3, bool
     if cfg.floats {
@@ -807,7 +819,7 @@ pub fn gen_store(s: &mut Src, cfg: &GenCfg) -> Store {
                         V::Int(s.range(-3, 8))
                     }
                 }
-                "s" | "t" if cfg.strings && !s.chance(1, 5) => V::Str(gen_str(s)),
+                "s" | "t" if cfg.strings && !s.chance(1, 5) => V::Str(gen_store_str(s)),
                 "b" if !s.chance(1, 5) => V::Bool(s.bool()),
                 "a" if cfg.arrays && !s.chance(1, 4) => {
                     let n = s.below(4);
@@ -844,7 +856,7 @@ pub fn gen_store(s: &mut Src, cfg: &GenCfg) -> Store {
         st.top.insert("F.x".into(), V::Int(s.range(-3, 8)));
     }
     if cfg.strings && s.chance(1, 4) {
-        st.top.insert("F.s".into(), V::Str(gen_str(s)));
+        st.top.insert("F.s".into(), V::Str(gen_store_str(s)));
     }
     st
 }
